@@ -76,7 +76,13 @@ CHECKS["C17"] = dict(
     text="exit_restores (structural induction over trees of with-blocks, normal and exceptional exit), thread_frame / "
     "thread_noninterference (any interleaving), precedence (explicit > innermost > outer > default, all 8 keys), "
     "sharedmem_is_threads, prefer_is_hint over the Lean model of parallel_config/_get_active_backend/Parallel.__init__; programs of "
-    "nested blocks across 1-3 threads are run on the real code and compared at every program point.",
+    "nested blocks across 1-3 threads are run on the real code and compared at every program point. NON-LIFO use and started threads "
+    "(ops create / unreg k / spawn; XProg): exit_restores_whatever_the_body_left (whatever objects the body created and left "
+    "registered, the exit of a with block restores exactly the configuration of its creation), unregister_is_restore (idempotent, any "
+    "operations in between), unregister_out_of_order, balanced_program_restores, new_thread_starts_from_defaults (plain thread, copied "
+    "contextvars context, asyncio.to_thread), other_threads_unaffected, gab_agrees_with_parallel; counterexamples (decide) for three "
+    "seeded variants (guarded unregister, ContextVar, literal defaults of get_active_backend); generated unbalanced programs are "
+    "compared step by step.",
     note="modelled not verified: threading.local, third-party/dask backends, multiprocessing-disabled mode; one known finding "
     "(context n_jobs dropped when a context's process backend is replaced for require='sharedmem', pinned by joblib's own tests).",
     technique="Lean 4 proof (structural induction on config programs) + differential correspondence on generated programs",
@@ -122,7 +128,13 @@ CHECKS["C04"] = dict(
     "late iterator error be swallowed; found by the M1L correspondence, fixed in /repo); 'the call always terminates': "
     "M1L.quiescent_termination (drain schedule, explicit bound). M1L-Seq (sequences of calls on one object with callback threads of earlier "
     "calls still alive): stale_steps_are_noops, current_call_refines_M1L, finished_call_refines_M1L, next_call_is_fresh, "
-    "error_surfaces_seq, clean_call_returns_seq, and stale_dispatch_new_counterexample = F50 for the older code.",
+    "error_surfaces_seq, clean_call_returns_seq, and stale_dispatch_new_counterexample = F50 for the older code. START-UP FAILURES "
+    "(lean/JoblibModel/ParallelStartup.lean: len(iterable), backend.configure, n_jobs == 0, start_call, iter(iterable), the pre_dispatch "
+    "resolution or islice raises; a failed __enter__): failed_start_raises_the_fault, failed_start_leaves_clean, "
+    "failed_start_releases_backend, next_call_after_failed_start_is_fresh, second_call_correct_after_failed_starts(+_unordered) over "
+    "inductive histories of calls and failed starts, history_leaves_idle, sequential_failed_start, no_fault_is_old_model, and "
+    "failed_start_counterexample / failed_start_unguarded_blocks_next_call = F52 for the older code; ~10% of the generated calls carry a "
+    "start-up fault (event-log equality); a native probe repeats them on the real backends (F54).",
     note="M1 granularity: completion callbacks are atomic and delivered at hook points of the caller (configure, compute_batch_size, sleep, consumer pauses) - exactly the schedules harness/ctl.py executes on the real Parallel on one thread (event-log equality). Interleavings at lock-boundary / backend-call / unlocked-shared-access granularity with any number of concurrent callback threads are covered by PROOF on the second model M1L (lean/JoblibModel/ParallelLock.lean, theorems M1L.*; scope: one call on a fresh object, ordered modes, no timeout) and tied to the code by step-log equality of forced real-thread schedules (instrumented lock, controllable backend, descriptor-instrumented shared attributes; no line numbers). What remains exploration judged by oracles only is finer than a single attribute access (bytecode level: instr_sweep), mid-callback observations of the wait predicate, close during a callback's pull, native threading/multiprocessing runs, and at M1L granularity: timeouts, generator_unordered (call sequences with surviving callback threads of earlier calls are covered by PROOF on M1L-Seq, theorems M1LSeq.*: stale_steps_are_noops, current_call_refines_M1L, next_call_is_fresh, return_correct_seq, error_surfaces_seq; tied by step-log equality of forced multi-call schedules); termination is proved for the drain schedule (completions, then callbacks, then the caller; quiescent_termination with an explicit bound), not for arbitrary fair schedules. Modelled not verified: backend contract (each batch executed at most once, callback at most once), RLock, islice, Queue/deque, pickling to workers." + " Worker-side traceback capture is covered by native runs only.",
     technique="Lean 4 proof (invariants + clean-state re-establishment) + event-log correspondence under a deterministic scheduler",
     ref="6/C04, 13.2",
@@ -217,8 +229,14 @@ CHECKS["C12"] = dict(
     "FuncCode model (process-global _FUNCTION_HASHES and _FUNC_CODE_WRITERS keyed by location, per-directory func_code.py + entries); "
     "counterexamples for the pre-F10 / pre-F38 trees, for a writer key without the location and for one directory under two spellings "
     "(F46), value_from_own_version_resolved for the candidate repair; three streams of generated multi-session programs (one location; "
-    "2-3 directories / several Memory objects; aliased spellings) run in their own interpreters and compared step by step.",
-    note="modelled not verified: inspect.getsource / get_func_code text extraction, weakref table lifetime; sessions are sequential; one "
+    "2-3 directories / several Memory objects; aliased spellings) run in their own interpreters and compared step by step. TEXT LAYER of "
+    "func_code.py (lean/JoblibModel/FuncCodeText.lean: _write_func_code's format string, extract_first_line's startswith / split / int / "
+    "join, the comparison old_func_code == func_code): extract_write_roundtrip (every source text, every line number), torn_reads (a file "
+    "cut at ANY length reads as: a fragment of the marker | ValueError | empty source | a strict prefix of the source), "
+    "torn_same_only_for_prefix, intact_same_iff; tied by the text stream (real _write_func_code / extract_first_line on generated texts, "
+    "intact and cut at every length, hostile first lines).",
+    note="modelled not verified: inspect.getsource / get_func_code text extraction, UTF-8 (a byte prefix decodes to a code-point prefix or "
+    "raises), int() outside ASCII fields (the model abstains), weakref table lifetime; sessions are sequential; one "
     "location string denoting two directories in one process (relative path + chdir) is not modelled; F39, F46 known findings.",
     technique="Lean 4 proof (per-directory cell invariant + frame lemmas over definition/call/process histories) + generated-program correspondence",
     ref="6/C12, 14.3",
